@@ -85,13 +85,15 @@ void hazard_pointer<Traits>::guard_ptr<T, MarkedPtr>::acquire(const concurrent_p
   if (p1 == this->ptr) {
     return;
   }
-  if (p1 != nullptr && hp == nullptr) {
+  if (p1.get() != nullptr && hp == nullptr) {
     hp = local_thread_data.alloc_hazard_pointer();
   }
   auto p2 = p1;
   do {
-    if (p2 == nullptr) {
+    if (p2.get() == nullptr) {
+      // nothing to protect - do not occupy a hazard pointer (keep the mark of a marked null pointer)
       reset();
+      this->ptr = p2;
       return;
     }
 
@@ -110,9 +112,14 @@ bool hazard_pointer<Traits>::guard_ptr<T, MarkedPtr>::acquire_if_equal(const con
                                                                        const MarkedPtr& expected,
                                                                        std::memory_order order) {
   auto p1 = p.load(std::memory_order_relaxed);
-  if (p1 == nullptr || p1 != expected) {
+  if (p1.get() == nullptr || p1 != expected) {
+    // a (marked) null pointer needs no protection - do not occupy a hazard pointer for it
     reset();
-    return p1 == expected;
+    if (p1 == expected) {
+      this->ptr = p1;
+      return true;
+    }
+    return false;
   }
 
   if (hp == nullptr) {
